@@ -359,6 +359,22 @@ def f_spec_variant_same(a):
     return "SAME"
 
 
+def f_spec_variant_same_api(a):
+    """white-space / case variants of the ARGUMENTS of the building and lookup entry points give the same outcome:
+    args = cc, bank, account, branch, bank', account', branch'  (the primed ones are variants of the others)"""
+    cc = dec(a[0])
+    x, y = [dec(v) for v in a[1:4]], [dec(v) for v in a[4:7]]
+    calls = (("generate", lambda v: str(IBAN.generate(cc, v[0], v[1], v[2]))),
+             ("from_components", lambda v: str(BBAN.from_components(cc, bank_code=v[0], account_code=v[1], branch_code=v[2]))),
+             ("from_bank_code", lambda v: str(BIC.from_bank_code(cc, v[0]))),
+             ("candidates", lambda v: [str(c) for c in BIC.candidates_from_bank_code(cc, v[0])]))
+    for name, f in calls:
+        o1, o2 = _outcome(lambda: f(x)), _outcome(lambda: f(y))
+        if o1[:2] != o2[:2] or o1[2] != o2[2]:
+            return f"DIFF {name}: {o1[:2]} {o1[2]!r} / {o2[:2]} {o2[2]!r}"[:300]
+    return "SAME"
+
+
 def f_iban_formatted_rt(a):
     o = IBAN(dec(a[0]), allow_invalid=True)
     f = o.formatted
@@ -478,13 +494,16 @@ def _json_dumps(x):
     return _json.dumps(x, ensure_ascii=True)
 
 
-_BANK_IDS = {}
+_BANK_IDS = None
+_BANK_IDS_LOCK = __import__("threading").Lock()
 
 
 def _bank_id(entry):
-    if not _BANK_IDS:
-        for i, en in enumerate(registry.get("bank")):
-            _BANK_IDS[id(en)] = i
+    global _BANK_IDS
+    if _BANK_IDS is None:
+        with _BANK_IDS_LOCK:               # the harness' own table: built once, also when several threads ask first
+            if _BANK_IDS is None:
+                _BANK_IDS = {id(en): i for i, en in enumerate(registry.get("bank"))}
     return _BANK_IDS.get(id(entry), -1)
 
 
@@ -627,6 +646,14 @@ def f_spec_only_rejects(a):
 _PROBE_OBJECTS = []
 
 
+def _pycountry_digest():
+    try:
+        import pycountry
+        return sorted(c.alpha_2 for c in pycountry.countries)
+    except Exception as e:  # noqa: BLE001
+        return type(e).__name__
+
+
 def f_history_probe(a):
     import hashlib
     import json as _json
@@ -646,6 +673,7 @@ def f_history_probe(a):
     state = {
         "registry": norm(registry._registry),
         "algorithms": sorted(checksum.algorithms),
+        "pycountry": _pycountry_digest(),
         "objects": [[type(o).__name__, str(o), getattr(o, "country_code", None), norm(getattr(o, "__dict__", {}))] for o in _PROBE_OBJECTS],
     }
     return hashlib.sha256(_json.dumps(state, sort_keys=True).encode()).hexdigest()
@@ -769,6 +797,14 @@ def f_random(a):
     ci = ch.pop(0)[0] if (not cc and ch) else 0
     bi = ch.pop(0)[0] if ch else 0
     return res + " ## " + _json.dumps({"ci": ci, "bi": bi, "draws": [enc(d) for d in log["draws"]]})
+
+
+def f_random_plain(a):
+    """a seeded draw with nothing instrumented"""
+    import random as _random
+    kind, cc, use_registry, pins, seed = a[0], dec(a[1]), b(a[2]), _pins(a[3] if a[3] != "-" else ""), int(a[4])
+    f = BBAN.random if kind == "bban" else IBAN.random
+    return guard(lambda: enc(str(f(cc, random=_random.Random(seed), use_registry=use_registry, **pins))))
 
 
 def f_spec_random(a):
@@ -911,6 +947,46 @@ def f_spec_generate_national(a):
         return "OK"
     except exceptions.SchwiftyException as e:
         return "GENERATED-BUT-NATIONALLY-INVALID " + str(iban) + " " + type(e).__name__
+
+
+def f_spec_components_national(a):
+    """C09 with the check-digit component supplied as well: whatever from_components builds - keeping, replacing or
+    refusing the supplied digits - passes the national validation"""
+    cc, bk, ac, br, nat = [dec(v) for v in a[:5]]
+    try:
+        bb = BBAN.from_components(cc, bank_code=bk, account_code=ac, branch_code=br, national_checksum_digits=nat)
+    except exceptions.SchwiftyException:
+        return "OK"
+    except Exception as e:  # noqa: BLE001
+        return "CRASH " + type(e).__name__
+    try:
+        bb.validate_national_checksum()
+        return "OK"
+    except exceptions.SchwiftyException as e:
+        return "BUILT-BUT-NATIONALLY-INVALID " + str(bb) + " " + type(e).__name__
+
+
+def f_touch_all(a):
+    """read every public attribute of an (unvalidated) object - properties must be read-only in effect; result: their
+    values, so that the call can be compared with itself in other circumstances"""
+    kind, t = a[0], dec(a[1])
+    o = _mk(kind, t)
+    out = []
+    import warnings
+    with warnings.catch_warnings():
+        warnings.simplefilter("ignore")
+        for n in sorted(dir(type(o))):
+            if n.startswith("_") or n in dir(str):
+                continue
+            attr = getattr(type(o), n, None)
+            if not isinstance(attr, property):
+                continue
+            try:
+                v = getattr(o, n)
+                out.append(n + "=" + (repr(v) if isinstance(v, (str, int, bool, type(None), list)) else type(v).__name__ + ":" + str(getattr(v, "alpha_2", v))[:40]))
+            except Exception as e:  # noqa: BLE001
+                out.append(n + "!" + type(e).__name__)
+    return enc(";".join(out))
 
 
 def f_spec_rebuild(a):
